@@ -13,7 +13,8 @@ import argparse, fcntl, hashlib, json, os, re, subprocess, sys, time, shutil, gl
 
 ROOT = os.path.dirname(os.path.abspath(__file__))
 LEAN = os.path.join(ROOT, "lean")
-BUILD = os.path.join(ROOT, "build")
+BUILD = os.environ.get("VERIF_BUILD") or os.path.join(ROOT, "build")   # VERIF_BUILD / VERIF_OUT: private scratch for parallel mutation runs (tools/mutate.py)
+OUT = os.environ.get("VERIF_OUT") or ROOT
 REPO = os.environ.get("VERIF_REPO", "/repo")
 GOENV = dict(GOFLAGS="-mod=mod", GOPROXY="off", GOSUMDB="off", GOTOOLCHAIN="local",
              CGO_ENABLED="1")
@@ -427,13 +428,13 @@ def main():
     if P["build_ok"] or driver_ok:
         KS = run_ks(prop, cfg, tier, seed, log, replay_ids)
 
-    os.makedirs(os.path.join(ROOT, "replays"), exist_ok=True)
+    os.makedirs(os.path.join(OUT, "replays"), exist_ok=True)
     violations = []
     known_lines = {}
     n = 0
     def write_replay(body):
         nonlocal n
-        path = os.path.join(ROOT, "replays", "%s-%d-%d.json" % (prop, seed, n)); n += 1
+        path = os.path.join(OUT, "replays", "%s-%d-%d.json" % (prop, seed, n)); n += 1
         body.update(property=prop, seed=seed, tier=tier,
                     replay_cmd="python3 check.py %s --replay %s" % (prop, path))
         with open(path, "w") as f: json.dump(body, f, indent=1)
@@ -487,8 +488,8 @@ def main():
         "wall_s": round(wall, 2),
         "violations": len(violations),
     }
-    os.makedirs(os.path.join(ROOT, "evidence"), exist_ok=True)
-    with open(os.path.join(ROOT, "evidence", prop + ".json"), "w") as f:
+    os.makedirs(os.path.join(OUT, "evidence"), exist_ok=True)
+    with open(os.path.join(OUT, "evidence", prop + ".json"), "w") as f:
         json.dump(ev, f, indent=1)
     for kid, hs in known_lines.items():
         print("KNOWN-FINDING: property=%s %s %s (%d cases, e.g. %s)" % (prop, kid, known_ids[kid]["what"], len(hs), hs[0]["case"][:160]))
